@@ -35,6 +35,10 @@ import (
 //          nosig  all RRSIGs stripped
 //          nodsig the denial records' RRSIGs stripped (SOA still signed)
 //          badsig the first denial RRset's signature damaged
+//          extrasig  as good, plus RRSIGs over the SOA that name OTHER signers: a more
+//                 specific one (the question name itself / its parent) and a shallower one
+//                 (the zone's parent); the retry loop tries them most specific first, finds
+//                 no DS for them, and must end at the real signer with the same verdict
 //          insec  as good, but the resolver holds NO DS for the zone (an insecure zone;
 //                 the root always has its trust anchor)
 //          insecnosig  no DS and no RRSIGs: an unsigned zone
@@ -185,6 +189,19 @@ func runAuthority(signer, q name, t uint16, nx bool, variant string, denial []dn
 		first = false
 		sigs = append(sigs, sig)
 	}
+	if variant == "extrasig" {
+		for _, other := range []name{q.fold(), signer.fold().child("deeper"), signer.fold()} {
+			if len(other) > 0 && other.eq(signer.fold()) {
+				other = other.parent()
+			}
+			if other.eq(signer.fold()) || len(other.wire()) > 255 {
+				continue
+			}
+			x := dns.Copy(soaSig).(*dns.RRSIG)
+			x.SignerName = other.pres()
+			sigs = append([]dns.RR{x}, sigs...)
+		}
+	}
 	if variant != "nosig" && variant != "insecnosig" {
 		// RRSIGs interleaved the way servers send them is irrelevant to the code; append
 		ns = append(ns, sigs...)
@@ -235,6 +252,9 @@ func authOracle(out authOut, variant string, exactErr error, secure bool, fam st
 			return "FAIL sig=auth/insecure-zone-authenticated"
 		}
 		return "ok"
+	}
+	if variant == "extrasig" {
+		variant = "good"
 	}
 	if foreignClass && variant == "good" {
 		// an in-zone record of a class the (class IN) zone key cannot have signed
@@ -287,10 +307,9 @@ func execAuthNsec(f []string) vlib.Res {
 	}
 	res := vlib.Res{Impl: out.String(), Tags: "auth," + variant + out.tags()}
 	if t == dns.TypeRRSIG {
-		// verifyDNSSEC does not validate responses to RRSIG questions at all ("we don't
-		// need to verify rrsig questions"): passed on without AD; modelled, not judged
-		res.Oracle, res.Tags = "-", res.Tags+",rrsig-question,unjudged"
-		return res
+		// a DENIAL in answer to an RRSIG question is validated like any other (/repo 129b2e9;
+		// before, verifyDNSSEC skipped every RRSIG question and the response was passed on unvalidated)
+		res.Tags += ",rrsig-question"
 	}
 	if dnssec.ValidateSigner(signer.pres(), q.pres()) != nil {
 		res.Oracle = "ok"
@@ -331,8 +350,7 @@ func execAuthNsec3(f []string) vlib.Res {
 	}
 	res := vlib.Res{Impl: out.String(), Tags: "auth3," + variant + out.tags()}
 	if t == dns.TypeRRSIG {
-		res.Oracle, res.Tags = "-", res.Tags+",rrsig-question,unjudged"
-		return res
+		res.Tags += ",rrsig-question"
 	}
 	if dnssec.ValidateSigner(signer.pres(), q.pres()) != nil {
 		res.Oracle = "ok"
@@ -387,4 +405,175 @@ func rootVariant(signer name, variant string) string {
 		}
 	}
 	return variant
+}
+
+// ---- the unsigned response and its only excuse ('z authu' / 'h authu') ----
+//
+//   z authu <signer> <qname> <qtype> <nx|nd> <dsvariant>
+//   h authu <signer> <qname> <qtype> <nx|nd> <dsvariant> <hash table>
+//
+// The upstream response carries NO signature (the shape of an answer from an
+// unsigned child zone served by the same server). authority() may pass it on only
+// when provenInsecureDelegation succeeds: its own `<cut> DS` lookup (answered here
+// from the CURRENT record set next to the zone's SOA, signed per dsvariant:
+// good | nosig | badsig | none = lookup fails) must prove "delegation, no DS" for
+// the first cut below the zone on the way to the name.
+
+func runAuthorityUnsigned(signer, q name, t uint16, nx bool, dsv string, denial []dns.RR) (out authOut, ok bool) {
+	zone := signer.fold().pres()
+	env := authEnvFor(zone)
+	ok = true
+	if dsv != "none" {
+		resolver.VerifC02SetDSResponder(env.r, func(req *dns.Msg) *dns.Msg {
+			soa := &dns.SOA{Hdr: dns.RR_Header{Name: zone, Rrtype: dns.TypeSOA, Class: dns.ClassINET, Ttl: 300},
+				Ns: "ns1." + zone, Mbox: "hostmaster." + zone, Serial: 1, Refresh: 3600, Retry: 600, Expire: 86400, Minttl: 300}
+			if zone == "." {
+				soa.Ns, soa.Mbox = "ns1.", "hostmaster."
+			}
+			ns, sigs, sok := signSection(env, zone, soa, denial, dsv)
+			if !sok {
+				ok = false
+				return nil
+			}
+			m := new(dns.Msg)
+			m.SetReply(req)
+			m.Authoritative = true
+			m.Ns = ns
+			if dsv != "nosig" {
+				m.Ns = append(m.Ns, sigs...)
+			}
+			return m
+		})
+		defer resolver.VerifC02SetDSResponder(env.r, nil)
+	}
+	rcode := dns.RcodeSuccess
+	if nx {
+		rcode = dns.RcodeNameError
+	}
+	req := new(dns.Msg)
+	req.SetQuestion(q.pres(), t)
+	req.SetEdns0(1232, true)
+	resp := new(dns.Msg)
+	resp.SetRcode(req, rcode)
+	resp.Authoritative = true
+	// the unsigned child's SOA (owner: the first label below the zone on the way to q, else the zone)
+	owner := zone
+	if qf := q.fold(); len(qf) > len(signer) && qf.under(signer.fold()) {
+		owner = qf.suffix(len(signer) + 1).pres()
+	}
+	resp.Ns = []dns.RR{&dns.SOA{Hdr: dns.RR_Header{Name: owner, Rrtype: dns.TypeSOA, Class: dns.ClassINET, Ttl: 300},
+		Ns: "ns1." + owner, Mbox: "hostmaster." + owner, Serial: 1, Refresh: 3600, Retry: 600, Expire: 86400, Minttl: 300}}
+	got, proof, marked, aerr := resolver.VerifC02Authority(env.r, req, resp, env.ds, zone)
+	out.err, out.kind = aerr, "none"
+	if aerr == nil {
+		out.ad, out.marked = got.AuthenticatedData, marked
+		if marked {
+			out.agg, out.kind = proof.Aggressive, "other"
+		}
+	}
+	return out, ok
+}
+
+// signSection: SOA + the in-zone RRsets of denial, signed (per variant) by the zone key.
+func signSection(env *authEnv, zone string, soa *dns.SOA, denial []dns.RR, variant string) (ns, sigs []dns.RR, ok bool) {
+	soaSig, err := authSign(env.key, []dns.RR{soa}, zone)
+	if err != nil {
+		return nil, nil, false
+	}
+	ns, sigs = []dns.RR{soa}, []dns.RR{soaSig}
+	type gk struct {
+		name       string
+		rtype, cls uint16
+	}
+	var order []gk
+	groups := map[gk][]dns.RR{}
+	for _, rr := range denial {
+		c := dns.Copy(rr)
+		ns = append(ns, c)
+		if !dnsutil.NameInZone(strings.ToLower(c.Header().Name), strings.ToLower(zone)) {
+			continue
+		}
+		k := gk{strings.ToLower(c.Header().Name), c.Header().Rrtype, c.Header().Class}
+		if _, seen := groups[k]; !seen {
+			order = append(order, k)
+		} else {
+			c.Header().Name = groups[k][0].Header().Name
+		}
+		groups[k] = append(groups[k], c)
+	}
+	for i, k := range order {
+		sig, err := authSign(env.key, groups[k], zone)
+		if err != nil {
+			authWhy = err.Error()
+			return nil, nil, false
+		}
+		if variant == "badsig" && i == 0 {
+			b := []byte(sig.Signature)
+			if b[10] == 'A' {
+				b[10] = 'B'
+			} else {
+				b[10] = 'A'
+			}
+			sig.Signature = string(b)
+		}
+		sigs = append(sigs, sig)
+	}
+	return ns, sigs, true
+}
+
+// insecureCut: the first label below signer on the way to the name the excuse is about.
+func insecureCut(signer, q name, t uint16) (name, bool) {
+	pn := q.fold()
+	if t == dns.TypeDS && len(pn) > 0 {
+		pn = pn.parent()
+	}
+	sg := signer.fold()
+	if len(pn) <= len(sg) || !pn.under(sg) {
+		return nil, false
+	}
+	return pn.suffix(len(sg) + 1), true
+}
+
+func execAuthUnsigned(f []string, nsec3 bool) vlib.Res {
+	signer, q, t, nx, dsv := parseName(f[2]), parseName(f[3]), uint16(atoi(f[4])), f[5] == "nx", f[6]
+	denial, fam := curRRs, "authu"
+	if nsec3 {
+		denial, fam = curRR3, "authu3"
+	} else if !signableNsec(curSet) {
+		return vlib.Res{Impl: "unsignable", Tags: "star-prefixed-label"}
+	}
+	out, ok := runAuthorityUnsigned(signer, q, t, nx, dsv, denial)
+	if !ok {
+		return vlib.Res{Impl: "unsignable", Tags: strings.ReplaceAll(authWhy, " ", "_")}
+	}
+	res := vlib.Res{Impl: out.String(), Tags: fam + ",ds-" + dsv + out.tags(), Oracle: "ok"}
+	if out.err == nil && (out.ad || out.marked) {
+		res.Oracle = "FAIL sig=auth/unsigned-response-authenticated"
+		return res
+	}
+	// what the delegation validator says, called directly on the same filtered records
+	cut, below := insecureCut(signer, q, t)
+	proven := false
+	if below && dsv == "good" && !foreignClass(denial, signer) {
+		set := dnsutil.FilterRRsToZone(denial, signer.fold().pres())
+		if len(set) > 0 {
+			if nsec3 {
+				proven = dnssec.VerifyDelegationForZoneWithWork(cut.pres(), signer.fold().pres(), set, nil) == nil
+			} else {
+				proven = dnssec.VerifyDelegationNSEC(cut.pres(), set) == nil
+			}
+		}
+	}
+	switch {
+	case out.err == nil && !proven:
+		res.Oracle = "FAIL sig=auth/unsigned-denial-accepted-without-insecure-delegation ds=" + dsv
+	case out.err != nil && proven:
+		res.Oracle = "FAIL sig=auth/insecure-delegation-refused err=" + strings.ReplaceAll(out.err.Error(), " ", "_")
+	case out.err == nil && !nsec3 && judged(signer):
+		// the zone itself: the cut must be a delegation point without DS
+		if nd := curZone.find(cut); nd == nil || !nd.isDeleg() || nd.types[tDS] {
+			res.Oracle = "FAIL sig=auth/unsigned-denial-accepted-no-such-insecure-delegation"
+		}
+	}
+	return res
 }
